@@ -441,8 +441,8 @@ package main
 //@   ghost V0 map[string]bool   -- its values before marking
 //@   panics iff is(FType_FUnion, ttype) && (!has_uniinfo(FType_FUnion_Value(ttype)) || (exists i int :: 0 <= i && i < len(uniinfo(FType_FUnion_Value(ttype)).Cases) && (forall j int :: 0 <= j && j < len(ucases) ==> ucases[j].UnionPattern.CaseId != uniinfo(FType_FUnion_Value(ttype)).Cases[i].Name)))
 //@   inline-call slice.Fold#0
-//@   at before call slice.Fold#0: D0 = domof(cmap.Fdict)
-//@   at before call slice.Fold#0: V0 = valof(cmap.Fdict)
+//@   at before call slice.Fold#0: D0 = domof($1.Fdict)
+//@   at before call slice.Fold#0: V0 = valof($1.Fdict)
 //@   loop slice.Fold#0/0 index i:
 //@     invariant same: stat == iniS && iniS.Fdict != 0
 //@     invariant marked: forall j int :: 0 <= j && j < i ==> has(iniS.Fdict, ss[j]) && iniS.Fdict[ss[j]]
@@ -603,7 +603,7 @@ package main
 //@   at before call frt.NewTuple2#1: rp = rpc
 //@   at after call pEwithMinPrec#0: rrhs = c_rp
 //@   ghost rrhs int
-//@   at before call newBinOpCall#0: glob(wg) = glob(wg) && rpc >= bop.Precedence && rrhs > bop.Precedence
+//@   at before call newBinOpCall#0: glob(wg) = glob(wg) && rpc >= $2.Precedence && rrhs > $2.Precedence
 //@   at before call parseBinAfter#0: pass rpc = bop.Precedence
 //@   at after call parseBinAfter#0: rp = c_rp
 
@@ -785,7 +785,7 @@ package main
 //@   panics may
 //@   ensures text: result == "frt.SInterP(\"" + F + "\", " + join_prefix(V, ", ", len(V)) + ")"
 //@   at after call frt.Destr2#0: F = ret
-//@   at after call strings.Concat#0: V = vs
+//@   at before call strings.Concat#0: V = $1
 
 //@ func faToGo
 //@   trusted
@@ -1115,7 +1115,7 @@ package main
 //@   ensures no-default-keeps-arms: is(UnionMatchRules_UCaseOnly, result.E1) ==> UnionMatchRules_UCaseOnly_Value(result.E1) == US
 //@   at after call frt.Destr2#0: P = ret
 //@   at after call ExprToType#0: TT = ret
-//@   at before call exaustiveCheck#0: US = us
+//@   at before call exaustiveCheck#0: US = $1
 
 // C03: partial application - a closure over the missing parameters: supplied arguments first (in source
 // order), then _r0.._rk in order; closure parameters typed by the missing parameter types; the callee is
@@ -1218,8 +1218,8 @@ package main
 //@   ensures block-scope-is-a-child: scparent(SC) == ps.scope && SC != ps.scope
 //@   ensures registered-in-enclosing-scope: RS == ps.scope
 //@   ensures scope-restored: result.E0.scope == ps.scope
-//@   at before call parseExtDefs#0: SC = ps4.scope
-//@   at before call piRegAll#0: RS = ps5.scope
+//@   at before call parseExtDefs#0: SC = $1.scope
+//@   at before call piRegAll#0: RS = $1
 
 // ---------------------------------------------------------------------------------------------
 // C15 parser half: every value the type parser returns is a derivation of the documented grammar
@@ -1448,8 +1448,8 @@ package main
 //@   ensures registered-for-result: UT == result && result.Name == uf.Name && result.Targs == stlist
 //@   ensures all-cases: len(UI.Cases) == len(uf.Cases)
 //@   ensures case-names-in-order: forall k int :: 0 <= k && k < len(uf.Cases) ==> UI.Cases[k].Name == uf.Cases[k].Name
-//@   at before call updateUniInfo#0: UI = ui
-//@   at before call updateUniInfo#0: UT = ut
+//@   at before call updateUniInfo#0: UI = $1
+//@   at before call updateUniInfo#0: UT = $0
 
 //@ func newNTPair
 //@   props C09
@@ -1469,8 +1469,8 @@ package main
 //@   panics may
 //@   ensures only-non-generic: result.E1 == (len(uf.Tparams) == 0)
 //@   ensures registered: result.E1 ==> UT == result.E0 && result.E0.Name == uf.Name && len(result.E0.Targs) == 0 && UI.Cases == uf.Cases
-//@   at before call updateUniInfo#0: UI = ui
-//@   at before call updateUniInfo#0: UT = ut
+//@   at before call updateUniInfo#0: UI = $1
+//@   at before call updateUniInfo#0: UT = $0
 
 // ---------------------------------------------------------------------------------------------
 // C06, grammar-level layout: wherever the grammar allows a line break (after `=` of a let, after `->` of
@@ -1610,7 +1610,7 @@ package main
 //@   ensures body-starts-after-line-breaks: P.tkz.current.ttype != New_TokenType_EOL
 //@   ensures C07 parameters-and-body-in-a-child-scope: scparent(P.scope) == ps.scope && P.scope != ps.scope && L == params_log(old(glob(vardefs)), P.scope, result.E1.Params)
 //@   ensures C07 scope-restored: result.E0.scope == ps.scope
-//@   at before call parseBlock#0: P = _r0
+//@   at before call parseBlock#0: P = $1
 //@   at before call psCurIs#0: L = glob(vardefs)
 
 //@ func newIfElseCall
@@ -1948,7 +1948,7 @@ package main
 //@   ensures rules-start-after-line-breaks: P.tkz.current.ttype != New_TokenType_EOL
 //@   ensures target-is-the-expression-after-match: result.E1.Target == pExpr(adv(ps)).E1 && ps.tkz.current.ttype == New_TokenType_MATCH
 //@   ensures C09 union-target-is-parsed-by-the-union-rules: is(FType_FUnion, exprtype(result.E1.Target)) ==> is(MatchRules_RUnions, result.E1.Rules)
-//@   at before call parseMatchRules#0: P = ps2
+//@   at before call parseMatchRules#0: P = $2
 
 // ---------------------------------------------------------------------------------------------
 // C03, package_info: a declaration `let name<T,..>: A->B->C` records under `name` the signature that was
@@ -1996,7 +1996,7 @@ package main
 //@   ensures scope-kept: result.scope == ps.scope
 //@   ensures live: live(result) && samebuf(result, ps) && result.offsideCol == ps.offsideCol
 //@   ensures progress: result.tkz.current.begin > ps.tkz.current.begin
-//@   at before call parseTypeArrows#0: PT = _r0
+//@   at before call parseTypeArrows#0: PT = $1
 
 //@ func regFF
 //@   props C03
@@ -2198,9 +2198,9 @@ package main
 //@   ensures text: result == "switch " + ite(HV, TMP + " := ", "") + "(" + toGo(target) + ").(type){\n" + join_prefix(CS, "", len(US)) + ite(is(UnionMatchRules_UCaseOnly, rules), "default:\npanic(\"Union pattern fail. Never reached here.\")\n", "default:\n" + btogRet(UnionMatchRules_UCaseWD_Value(rules).Default) + "\n") + "}"
 //@   ensures tmp-only-when-some-arm-binds: !HV ==> TMP == ""
 //@   at after call umrHasCaseVar#0: HV = ret
-//@   at before call buf.New#0: TMP = tmpVarName
+//@   at after call frt.IfElse#0: TMP = ret
 //@   at after call slice.Map#0: CS = ret
-//@   at before call slice.Map#0: US = _r0
+//@   at before call slice.Map#0: US = $1
 
 //@ func rsLookupEI
 //@   trusted
